@@ -11,29 +11,39 @@
 (*                       reaches the threshold.  That value lies INSIDE the support; the   *)
 (*                       mass between it and the previous grid value is cut off, and a     *)
 (*                       profile between two grid values is stepped over (x_max = floor).  *)
-(* Rule = "step_back"    the code since D58: x_max = the grid value tried before it; if no  *)
-(*                       grid value reaches the threshold the fine lattice is scanned       *)
-(*                       (np.geomspace in the code) and x_max is one grid step above the    *)
-(*                       largest x that does.                                              *)
-(* Relative = TRUE       a design in which the threshold is relative to the profile's peak  *)
-(*                       (not in the code): an extreme conditioning value scales the whole  *)
-(*                       profile down, and below the ABSOLUTE threshold nothing is found    *)
-(*                       (recorded known finding D15).                                     *)
+(* Rule = "step_back"    the code from D58 to D76: x_max = the grid value tried before it;  *)
+(*                       if no grid value reaches the threshold the fine lattice is scanned *)
+(*                       (np.geomspace in the code).  It still stops at the FIRST part of   *)
+(*                       the density it meets: an upper mode of a bimodal profile that lies *)
+(*                       between two grid values is stepped over.                           *)
+(* Rule = "dense"        the code since D76: the fine lattice is always scanned and x_max   *)
+(*                       is one grid step above the largest x that reaches the threshold.   *)
+(* Relative = FALSE      the threshold is absolute (the code up to D77): an extreme          *)
+(*                       conditioning value scales the whole profile down, and below the     *)
+(*                       threshold nothing is found (the former known finding D15).          *)
+(* Relative = TRUE       the code since D77: the threshold is at most Peak / 1024.           *)
+(* Profiles are unimodal or bimodal (Second > 0: a second peak of the same height Gap fine   *)
+(* positions towards larger x).                                                             *)
 EXTENDS Integers, Sequences, FiniteSets, Fix
 
-CONSTANTS KMax, Sub, Peaks, Steeps, Thr, Rule, Relative, TailPermille
+CONSTANTS KMax, Sub, Peaks, Steeps, Thr, Rule, Relative, TailPermille, Gaps
 
 VARIABLES g, c, xm, pc
 vars == <<g, c, xm, pc>>
 
 FMax == KMax * Sub
 Pow2(n) == 2 ^ n
-Profile(peak, mode, steep) ==
-    [f \in 0..FMax |-> IF steep * Abs(f - mode) > 30 THEN 0 ELSE peak \div Pow2(steep * Abs(f - mode))]
+Uni(peak, mode, steep, f) == IF steep * Abs(f - mode) > 30 THEN 0 ELSE peak \div Pow2(steep * Abs(f - mode))
+(* gap = 0: unimodal; gap > 0: a second peak gap fine positions towards larger x (smaller index) *)
+Profile(peak, mode, steep, gap) ==
+    [f \in 0..FMax |-> IF gap = 0 THEN Uni(peak, mode, steep, f)
+                        ELSE Max2(Uni(peak, mode, steep, f), Uni(peak, mode - gap, steep, f))]
 PeakOf == g[CHOOSE j \in 0..FMax : \A i \in 0..FMax : g[i] <= g[j]]
-EffThr == IF Relative THEN (PeakOf \div 1024) + 1 ELSE Thr
+RelThr == (PeakOf \div 1024) + 1
+EffThr == IF Relative THEN (IF RelThr < Thr THEN RelThr ELSE Thr) ELSE Thr
 
-Init == /\ \E peak \in Peaks, mode \in (2 * Sub)..(FMax - Sub), steep \in Steeps : g = Profile(peak, mode, steep)
+Init == /\ \E peak \in Peaks, mode \in (2 * Sub)..(FMax - Sub), steep \in Steeps, gap \in Gaps :
+              mode - gap >= Sub /\ g = Profile(peak, mode, steep, gap)
         /\ c = 0 /\ xm = -1 /\ pc = "search"
 
 At(k) == g[k * Sub]
@@ -41,15 +51,18 @@ InSupport == {f \in 0..FMax : g[f] >= EffThr}
 MinOf(S) == CHOOSE x \in S : \A y \in S : x <= y
 Max0(a) == IF a < 0 THEN 0 ELSE a
 
-Shrink == /\ pc = "search" /\ At(c) < EffThr /\ c < KMax
+Dense == /\ pc = "search" /\ Rule = "dense"
+         /\ xm' = IF InSupport # {} THEN Max0(MinOf(InSupport) - Sub) ELSE FMax
+         /\ pc' = "sample" /\ UNCHANGED <<g, c>>
+Shrink == /\ pc = "search" /\ Rule # "dense" /\ At(c) < EffThr /\ c < KMax
           /\ c' = c + 1 /\ UNCHANGED <<g, xm, pc>>
-Stop == /\ pc = "search" /\ At(c) >= EffThr
+Stop == /\ pc = "search" /\ Rule # "dense" /\ At(c) >= EffThr
         /\ xm' = IF Rule = "step_back" /\ c > 0 THEN (c - 1) * Sub ELSE c * Sub
         /\ pc' = "sample" /\ UNCHANGED <<g, c>>
-Floor == /\ pc = "search" /\ At(c) < EffThr /\ c = KMax
+Floor == /\ pc = "search" /\ Rule # "dense" /\ At(c) < EffThr /\ c = KMax
          /\ xm' = IF Rule = "step_back" /\ InSupport # {} THEN Max0(MinOf(InSupport) - Sub) ELSE FMax
          /\ pc' = "sample" /\ UNCHANGED <<g, c>>
-Next == Shrink \/ Stop \/ Floor
+Next == Dense \/ Shrink \/ Stop \/ Floor
 Spec == Init /\ [][Next]_vars
 
 RECURSIVE Mass(_)
@@ -58,8 +71,10 @@ Total == Mass(0..FMax)
 Beyond == Mass({f \in 0..FMax : f < xm})       \* fine positions with larger x than x_max are cut off
 
 (* what the search guarantees about the grid values (basis of the conformance report in Trace_C16) *)
-StopRule == pc = "sample" /\ xm # FMax /\ Rule = "step_back" =>
-               \/ (xm = 0 /\ (g[0] >= EffThr \/ c = 1 \/ c = KMax))
+StopRule == pc = "sample" /\ xm # FMax /\ Rule \in {"step_back", "dense"} =>
+               \/ (xm = 0 /\ (g[0] >= EffThr \/ c = 1 \/ c = KMax \/ Rule = "dense"))
                \/ g[xm] < EffThr
+(* since D76 nothing that reaches the threshold lies beyond x_max *)
+NothingBeyond == pc = "sample" /\ Rule = "dense" /\ xm # FMax => \A f \in 0..FMax : f < xm => g[f] < EffThr
 NoTailTruncation == pc = "sample" => Beyond * 1000 <= TailPermille * Total
 =============================================================================
